@@ -276,6 +276,210 @@ def hostile_case(rng, B, lengths, ccmp, wep=False):
     B.cases.append(render)
 
 
+# ----------------------------------------------------------------------------- four-way handshakes
+
+PKE_LABEL = b"Pairwise key expansion"
+
+
+def prf512(pmk, aa, spa, anonce, snonce):
+    b = min(aa, spa) + max(aa, spa) + min(anonce, snonce) + max(anonce, snonce)
+    out = b""
+    for i in range(4):
+        out += hmac.new(pmk, PKE_LABEL + b"\0" + b + bytes([i]), hashlib.sha1).digest()
+    return out[:80]
+
+
+def eapol_key(ver, info, keylen, replay, nonce, keydata, kck=None, desc=2, eapol_ver=1):
+    body = bytes([desc]) + info.to_bytes(2, "big") + keylen.to_bytes(2, "big") + replay.to_bytes(8, "big") + nonce + \
+        bytes(16) + bytes(8) + bytes(8) + bytes(16) + len(keydata).to_bytes(2, "big") + keydata
+    fr = bytes([eapol_ver, 3]) + len(body).to_bytes(2, "big") + body
+    if kck is not None:
+        mic = hmac.new(kck, fr, hashlib.sha1 if ver == 2 else hashlib.md5).digest()[:16]
+        fr = fr[:81] + mic + fr[97:]
+    return fr
+
+
+SNAP_EAPOL = bytes([0xaa, 0xaa, 3, 0, 0, 0, 0x88, 0x8e])
+
+
+class Attempt:
+    """one run of the four-way handshake between `sta` and the AP `bssid`"""
+
+    def __init__(self, rng, bssid, sta, pmk, ccmp, qos):
+        self.rng, self.bssid, self.sta, self.ccmp = rng, bssid, sta, ccmp
+        self.anonce, self.snonce = rand_bytes(rng, 32), rand_bytes(rng, 32)
+        self.ptk = prf512(pmk, bssid, sta, self.anonce, self.snonce)
+        self.ver = 2 if ccmp else 1
+        self.replay = rng.randrange(1, 1000)
+        self.sub = 8 if qos else 0
+        self.seq = rng.randrange(4096)
+
+    def hdr(self, from_ap):
+        self.seq = (self.seq + 1) % 4096
+        if from_ap:
+            return mac_header(self.sub, 0, 1, self.sta, self.bssid, self.bssid, seq=self.seq, qos=self.rng.randrange(8), prot=0)
+        return mac_header(self.sub, 1, 0, self.bssid, self.sta, self.bssid, seq=self.seq, qos=self.rng.randrange(8), prot=0)
+
+    def msg(self, n, kck_override=None, replay_inc=0):
+        v, kl = self.ver, (16 if self.ccmp else 32)
+        kck = kck_override if kck_override is not None else self.ptk[:16]
+        rsn_ie = bytes([0x30, 0x14, 1, 0, 0, 0x0f, 0xac, 4 if self.ccmp else 2, 1, 0, 0, 0x0f, 0xac, 4 if self.ccmp else 2,
+                        1, 0, 0, 0x0f, 0xac, 2, 0, 0])
+        if n == 1:
+            e = eapol_key(v, v | 0x08 | 0x80, kl, self.replay + replay_inc, self.anonce, b"")
+        elif n == 2:
+            e = eapol_key(v, v | 0x08 | 0x100, kl, self.replay + replay_inc, self.snonce, rsn_ie, kck)
+        elif n == 3:
+            e = eapol_key(v, v | 0x08 | 0x40 | 0x80 | 0x100 | 0x200 | 0x1000, kl, self.replay + 1 + replay_inc, self.anonce,
+                          rand_bytes(self.rng, 56), kck)
+        else:
+            e = eapol_key(v, v | 0x08 | 0x100 | 0x200, kl, self.replay + 1 + replay_inc, bytes(32), b"", kck)
+        return self.hdr(n in (1, 3)) + SNAP_EAPOL + e
+
+
+def beacon_frame(rng, bssid, ssid, with_ssid=True, extra_first=False):
+    h = bytes([0x80, 0x00, 0, 0]) + b"\xff" * 6 + bssid + bssid + (rng.randrange(4096) << 4).to_bytes(2, "little")
+    fixed = rand_bytes(rng, 8) + (100).to_bytes(2, "little") + (0x0411).to_bytes(2, "little")
+    tags = b""
+    if extra_first:
+        tags += bytes([1, 4, 0x82, 0x84, 0x8b, 0x96])
+    if with_ssid:
+        tags += bytes([0, len(ssid)]) + ssid
+    tags += bytes([3, 1, rng.randrange(1, 12)])
+    if rng.random() < 0.3:
+        tags += bytes([0, 3]) + b"xyz"           # a second SSID element: the first one counts
+    return h + fixed + tags
+
+
+def handshake_case(rng, B):
+    """PSK/SSID learning + key learning over a handshake history, then traffic under the learned keys"""
+    ssid = rand_bytes(rng, rng.choice([0, 1, 6, 8, 32])) if rng.random() < 0.3 else rng.choice([b"Coherer", b"test-net", b"a"])
+    psk = rng.choice([b"Induction", b"password1234", rand_bytes(rng, rng.randint(8, 20))])
+    pmk = hashlib.pbkdf2_hmac("sha1", psk, ssid, 4096, 32)
+    bssid, staA, staB, other = [rand_bytes(rng, 6) for _ in range(4)]
+    kind = rng.choice(["valid", "valid", "valid", "valid", "restart", "m1-again", "wrong-psk", "missing-m3", "reorder", "no-ap"])
+    two = rng.random() < 0.35
+    ops = ["case"]
+    evs = []          # (frame bytes, annotation or None)
+    ap_known = kind != "no-ap"
+    how = rng.random()
+    if ap_known:
+        if how < 0.45:
+            ops.append(f"apaddr {hx(psk)} {hx(ssid)} {hx(bssid)} pmk={hx(pmk)}")
+        else:
+            ops.append(f"apdata {hx(psk)} {hx(ssid)} pmk={hx(pmk)}")
+            if rng.random() < 0.3:
+                ops.append(f"wpa {hx(beacon_frame(rng, bssid, ssid, with_ssid=False))}")     # no SSID element: ignored
+            if rng.random() < 0.3:
+                ops.append(f"wpa {hx(beacon_frame(rng, other, b'someone-else'))}")
+            ops.append(f"wpa {hx(beacon_frame(rng, bssid, ssid, extra_first=rng.random() < 0.5))}")
+            if rng.random() < 0.3:
+                ops.append(f"wpa {hx(beacon_frame(rng, bssid, ssid))}")                      # seen again: no second callback
+        if rng.random() < 0.2:
+            ops.append(f"apdata {hx(b'another-psk')} {hx(ssid)} pmk={hx(hashlib.pbkdf2_hmac('sha1', b'another-psk', ssid, 4096, 32))}")
+    else:
+        ops.append(f"apdata {hx(psk)} {hx(ssid)} pmk={hx(pmk)}")      # network known, this BSSID never announced
+
+    def history(sta, ccmp):
+        """list of (frame, learn-annotation or None); returns the attempt whose keys end up installed (or None)"""
+        seq = []
+        dup = lambda: rng.choice([1, 1, 1, 2, 3])
+        att = Attempt(rng, bssid, sta, pmk, ccmp, qos=rng.random() < 0.3)
+        if kind == "restart":
+            for _ in range(rng.randint(1, 2)):
+                old = Attempt(rng, bssid, sta, pmk, ccmp, qos=False)
+                upto = rng.choice([1, 2, 3])
+                for n in range(1, upto + 1):
+                    seq += [(old.msg(n), None)] * dup()
+        if kind == "m1-again":
+            seq += [(att.msg(1), None), (att.msg(2), None)]
+            seq += [(att.msg(1, replay_inc=1), None)]
+            seq += [(att.msg(2, replay_inc=1), None)] * dup()
+            seq += [(att.msg(3, replay_inc=1), None)] * dup()
+            seq += [(att.msg(4, replay_inc=1), "learn")]
+            return seq, att
+        if kind == "wrong-psk":
+            bad = hashlib.pbkdf2_hmac("sha1", b"not-the-psk", ssid, 4096, 32)
+            att = Attempt(rng, bssid, sta, bad, ccmp, qos=False)
+            for n in (1, 2, 3):
+                seq += [(att.msg(n), None)] * dup()
+            seq += [(att.msg(4), "nolearn")]
+            return seq, None
+        if kind == "missing-m3":
+            seq += [(att.msg(1), None), (att.msg(2), None), (att.msg(4), None)]
+            return seq, None
+        if kind == "reorder":
+            order = rng.choice([[2, 1, 3, 4], [1, 3, 2, 4], [1, 2, 4, 3]])
+            for n in order:
+                seq += [(att.msg(n), None)]
+            return seq, None
+        for n in (1, 2, 3):
+            seq += [(att.msg(n), None)] * dup()
+        seq += [(att.msg(4), "learn" if ap_known else None)]
+        if rng.random() < 0.2:
+            seq += [(att.msg(4), None)]                                   # message 4 retransmitted: nothing to complete
+        return seq, (att if ap_known else None)
+
+    ccmpA, ccmpB = rng.random() < 0.6, rng.random() < 0.6
+    hA, attA = history(staA, ccmpA)
+    hB, attB = (history(staB, ccmpB) if two else ([], None))
+    # interleave the two histories, beacons and unrelated data frames
+    merged = []
+    ia = ib = 0
+    while ia < len(hA) or ib < len(hB):
+        if ib >= len(hB) or (ia < len(hA) and rng.random() < 0.5):
+            merged.append((staA, attA) + hA[ia]); ia += 1
+        else:
+            merged.append((staB, attB) + hB[ib]); ib += 1
+        r = rng.random()
+        if r < 0.1:
+            merged.append((None, None, beacon_frame(rng, bssid, ssid), None))
+        elif r < 0.2:
+            h = mac_header(0, 1, 0, bssid, other, bssid, prot=1)
+            merged.append((None, None, h + rand_bytes(rng, rng.randint(0, 40)), None))
+    for sta, att, frame, ann in merged:
+        line = f"wpa {hx(frame)}"
+        if ann == "learn" and att is not None:
+            line += f" @ learn {hx(bssid)} {hx(sta)} {hx(att.ptk)} {1 if att.ccmp else 0}"
+        elif ann == "nolearn":
+            line += " @ nolearn"
+        ops.append(line)
+    learned = [(staA, attA)] + ([(staB, attB)] if two else [])
+    for sta, att in learned:
+        if att is not None:
+            lo, hi = sorted([bssid, sta])
+            ops.append(f"keys @ expect {hx(lo)}{hx(hi)}:{1 if att.ccmp else 0}:{hx(att.ptk)}")
+    # traffic under the learned keys
+    plan = []
+    for sta, att in learned:
+        if att is None:
+            continue
+        for _ in range(rng.randint(1, 3)):
+            tods = rng.random() < 0.5
+            peer = rng.choice([other] + ([staB if sta == staA else staA] if two else []))
+            sub = rng.choice([0, 8])
+            qos = rng.randrange(16)
+            h = mac_header(sub, 1, 0, bssid, sta, peer, seq=rng.randrange(4096), qos=qos) if tods else \
+                mac_header(sub, 0, 1, sta, bssid, peer, seq=rng.randrange(4096), qos=qos)
+            pt, ok = gen_plaintext(rng, False)
+            pn = rng.getrandbits(rng.choice([8, 16, 32, 48]))
+            if att.ccmp:
+                idx = B.want(f"ccmpenc {hx(att.ptk[32:48])} {hx(h)} {pn} 0 {hx(pt)}")
+            else:
+                mickey = att.ptk[56:64] if tods else att.ptk[48:56]
+                da, sa = (peer, sta) if tods else (sta, peer)
+                prio = (qos & 0x0f) if sub & 8 else 0
+                idx = B.want(f"tkipenc {hx(att.ptk[32:48])} {hx(mickey)} {hx(h[10:16])} {hx(da)} {hx(sa)} {prio} {pn} 0 {hx(pt)}")
+            plan.append((h, pt, ok, att, idx))
+
+    def render(bodies):
+        out = list(ops)
+        for h, pt, ok, att, idx in plan:
+            out.append(f"wpa {hx(h + bodies[idx])} @ enc {'ccmp' if att.ccmp else 'tkip'} {hx(att.ptk[32:48])} {hx(pt)} {1 if ok else 0}")
+        return out
+    B.cases.append(render)
+
+
 def aes_ops(rng, n):
     ops = ["case", "aes 000102030405060708090a0b0c0d0e0f 00112233445566778899aabbccddeeff"]
     for _ in range(n):
@@ -296,6 +500,8 @@ def gen_ops(rng, tier, exe):
         for _ in range(2 if quick else 30):
             hostile_case(rng, B, [rng.randint(0, 2400) for _ in range(12)], ccmp)
     hostile_case(rng, B, list(range(0, 40)), False, wep=True)
+    for i in range(60 if quick else 1500):
+        handshake_case(rng, B)
     return aes_ops(rng, 20 if quick else 400) + B.run()
 
 
@@ -307,10 +513,19 @@ def classify(op, impl):
         return w[0]
     tag = w[0]
     if "@" in w:
-        i = w.index("@")
-        tag += ":" + w[i + 2] + (":snapok" if w[-1] == "1" else ":not-snap")
+        a = w[w.index("@") + 1:]
+        if a and a[0] == "enc" and len(a) >= 2:
+            tag += ":" + a[1] + (":snapok" if w[-1] == "1" else ":not-snap")
+        elif a:
+            tag += ":" + a[0]
     else:
         tag += ":unannotated"
+    if " ev=hs:" in impl or ",hs:" in impl:
+        tag += ":keys-learned"
+    if " ev=ap:" in impl:
+        tag += ":ap-found"
+    if " cap=1" in impl:
+        tag += ":handshake-complete"
     if impl.startswith("r=1"):
         tag += ":decrypted"
     elif impl.startswith("parse-throw"):
@@ -340,7 +555,8 @@ def sig_of(kind, detail, case):
     w = op.split(" ")
     sig = {"kind": kind, "op": w[0] if w else ""}
     ff = frame_facts(op) if w and w[0] in ("wep", "wpa") else {}
-    cipher = w[w.index("@") + 2] if "@" in w and len(w) > w.index("@") + 2 else ""
+    ann = w[w.index("@") + 1:] if "@" in w else []
+    cipher = ann[1] if len(ann) >= 2 and ann[0] == "enc" else ""
     if kind == "spec":
         d = detail.split(" ")
         sig["clause"] = d[1] if len(d) > 1 else ""
